@@ -142,3 +142,48 @@ package twig
 //@   modifies elems(t.result)
 //@   loop 1 invariant 0 <= i && i <= len(t.result) && wsDone(i)
 //@   ensures wsDone(len(t.result))
+
+// ---------------------------------------------------------------- error flow (C17)
+// Functions on the render path: a non-nil error from any callee must be returned, wrapped or as is.
+//@ list errorflow (*%Node).Render (*RenderContext).EvaluateExpression (*RenderContext).evaluateFilterNode
+//@ list errorflow (*RenderContext).ApplyFilter (*RenderContext).ApplyFilterChain (*RenderContext).DetectFilterChain
+//@ list errorflow (*RenderContext).CallFunction (*RenderContext).CallMacro (*MacroNode).CallMacro renderVariableString
+//@ list errorflow (*ForNode).renderForLoop (*Engine).Render (*Engine).RenderTo (*Template).Render (*Template).RenderTo DebugRender
+//@ list errorflow (*Engine).Load
+// converters whose errors are part of a filter's own definition, not failures of a callback
+//@ list errorflow_internal toInt toFloat64 strconv.Atoi strconv.ParseFloat strconv.ParseInt time.Parse
+// variable and attribute lookups: "undefined variables and attributes print as empty" is a
+// documented tolerance, so their errors are not failures that must surface
+//@ list errorflow_internal (*RenderContext).GetVariable (*RenderContext).getAttribute
+// writes into in-memory builders never fail
+//@ list errorflow_internal (*strings.Builder).WriteString (*strings.Builder).WriteRune (*strings.Builder).WriteByte (*strings.Builder).Write
+//@ list errorflow_internal (*bytes.Buffer).WriteString (*bytes.Buffer).WriteRune (*bytes.Buffer).WriteByte (*bytes.Buffer).Write
+
+// NewError wraps its cause (EnhancedError.Unwrap returns it); trusted link to errors.Is semantics
+//@ func NewError props: C17
+//@   trusted
+//@   pure
+//@   ensures (err == nil ==> ret == nil) && (err != nil ==> ret != nil && wraps(ret, err))
+//@ func (*EnhancedError).Unwrap props: C17
+//@   ensures ret == e.Err
+
+// the retry with the unresolved name after a relative-name miss is a documented tolerance
+//@ func (*ExtendsNode).Render props: C17
+//@   flag errretry (*Engine).Load
+//@ func (*ImportNode).Render props: C17
+//@   flag errretry (*Engine).Load
+//@ func (*FromImportNode).Render props: C17
+//@   flag errretry (*Engine).Load
+// `ignore missing` turns a template that does not exist into empty output; every other failure
+// is reported
+//@ func (*IncludeNode).Render props: C17
+//@   flag errretry (*Engine).Load
+//@   flag errtolerate n.ignoreMissing && errIs(pendErr, ErrTemplateNotFound) && ret == nil
+// Load: a loader that does not have the name is skipped (the first that has it wins) and a
+// failing timestamp query only forces a reload; when no loader has the name every loader's own
+// error stays reachable from the returned error.
+//@ func (*Engine).Load props: C17
+//@   flag tolerates GetModifiedTime
+//@   flag errreset Loader.Load
+//@   flag errwrapper loadError causes
+//@   loop 2 invariant pendErr == nil || (exists i int :: 0 <= i && i < len(loaderErrors) && wraps(loaderErrors[i], pendErr))
